@@ -1595,7 +1595,11 @@ fn replay(seed: u64, nlanes: usize, backend_kind: &'static str, variants: u64, d
                     // overloaded): run the same probe again with a generous wait before anything is concluded
                     let mut again = 0;
                     // (bounded: when a broken tree makes many probes hang, the retries must not stretch the run)
-                    while (o.class == "hang" || o.bobs.anomalies.iter().any(|a| a.2 == "harness-barrier-timeout")) && again < 2 && n_retries.load(Ordering::Relaxed) < 40 {
+                    // (408 / 504 are sozu's own TIMER answers - front timeout 60 s, backend timeout 30 s: in a probe that lasts
+                    //  milliseconds they only fire when the process was stalled or the sandbox clock jumped (seen once: three
+                    //  probes of adjacent lanes in the same millisecond, thorough tier, machine overloaded). Same treatment
+                    //  as a hang: run the probe again; an answer that persists counts.)
+                    while (o.class == "hang" || o.class == "r408" || o.class == "r504" || o.bobs.anomalies.iter().any(|a| a.2 == "harness-barrier-timeout")) && again < 2 && n_retries.load(Ordering::Relaxed) < 40 {
                         again += 1;
                         n_retries.fetch_add(1, Ordering::Relaxed);
                         eprintln!("retry ({}) case={} how={} client={:?}/{:?} closed={} timed_out={}", o.class, case["c"], o.conc_desc, o.cobs.statuses, o.cobs.answered_by, o.cobs.closed, o.cobs.timed_out);
